@@ -690,7 +690,8 @@ class ProblemTable:
         T_idx = col[PT.T.value]
         delta_T_idx = col[PT.DELTA_T.value]
 
-        temps_sorted = np.sort(T_vals)
+        # Walk away from the neighbouring row: upwards for a top block, downwards for a bottom block
+        temps_sorted = np.sort(T_vals) if is_top_block else np.sort(T_vals)[::-1]
         block = np.full((temps_sorted.size, n_cols), np.nan, dtype=self.data.dtype)
         neighbor = row_neighbor.copy()
 
@@ -716,7 +717,7 @@ class ProblemTable:
                 else:
                     block[i-1][delta_T_idx] = block[i][delta_T_idx]
 
-        return block[::-1], row_neighbor
+        return (block[::-1] if is_top_block else block), row_neighbor
 
     def _initialise_insert_rows(
         self, row_top: np.ndarray, row_bot: np.ndarray, T_vals: np.ndarray
